@@ -1,27 +1,189 @@
-"""C03 — task-parallel executors equal the sequential one under every legal schedule."""
+"""C03 — task-parallel executors equal the sequential one under every legal schedule.
+
+Decided clauses (each a necessary condition, see DESIGN.md §2 C03):
+ (a) same submissions as the sequential reference (wrapper calls with argument origins)
+ (b) declared dependencies cover the effects of the task body
+ (c) capture lifetime of everything a deferred task dereferences
+ (d) per-worker kernel selected inside the task
+ (e) all tasks joined before execute() returns; stage functions reachable only from execute()
+quick: the two OpenMP executors; thorough: also Specx (a,b,c-captures,d,e) and StarPU through the
+declaration-only stub headers.
+"""
 import tbf
 import omp
+import stages
+import effects
+import taskdeps
+from tbf import walk, kids, strip, AnalysisBroken
 
 LEVEL = "other"
-TECHNIQUE = "capture-lifetime / dependence-vs-effect / submission-summary analysis over the clang AST (libTooling)"
+TECHNIQUE = "capture-lifetime / dependence-vs-effect / submission-summary rules over the clang AST (libTooling)"
 
-OMP_CLASSES = ["TbfOpenmpAlgorithm", "TbfOpenmpAlgorithmTsm"]
+PAIRS = [("TbfOpenmpAlgorithm", "TbfAlgorithm"), ("TbfOpenmpAlgorithmTsm", "TbfAlgorithmTsm")]
+SPECX_PAIRS = [("TbfSmSpecxAlgorithm", "TbfAlgorithm"), ("TbfSmSpecxAlgorithmTsm", "TbfAlgorithmTsm")]
+STAGES = ["P2M", "M2M", "M2L", "L2L", "L2P", "P2P"]
+
+
+def same_submissions(facts, par, ref, res):
+    """(a) per stage: the set of wrapper applications (method + argument origins) equals the reference's"""
+    n = 0
+    for stage in STAGES:
+        if stage not in par.stages or stage not in ref.stages:
+            raise AnalysisBroken("stage %s missing in %s or %s" % (stage, par.cls, ref.cls))
+        ps, rs = par.stages[stage], ref.stages[stage]
+        a, b = set(ps.call_signatures()), set(rs.call_signatures())
+        n += 1
+        res.instance("C03.a.same-submissions", "%s::%s vs %s::%s" % (par.cls, stage, ref.cls, stage), facts.loc(ps.fn),
+                     "%d wrapper applications: %s" % (len(a), sorted(m for m, _ in a)))
+        for m, args in sorted(a - b):
+            cand = [x for x in b if x[0] == m]
+            why = "no such application in the reference"
+            if cand:
+                diffs = [i for i, (x, y) in enumerate(zip(args, cand[0][1])) if x != y]
+                why = "argument slot(s) %s differ from %s::%s: here %s, reference %s" % (
+                    diffs, ref.cls, stage, [taskdeps.short(args[i]) for i in diffs], [taskdeps.short(cand[0][1][i]) for i in diffs])
+            node = [c["node"] for c in ps.wrapper_calls if c["method"] == m and tuple(c["args"]) == args][0]
+            res.violation("C03.a.same-submissions", tbf.rel(facts.path_of(node)), ps.fn["qname"], m, node["l"][1],
+                          "wrapper application %s(...) is not submitted by the sequential reference: %s" % (m, why))
+        for m, args in sorted(b - a):
+            if any(x[0] == m for x in a - b):
+                continue   # already reported as a differing application
+            res.violation("C03.a.same-submissions", tbf.rel(facts.path_of(ps.fn)), ps.fn["qname"], m + ":missing", ps.fn["l"][1],
+                          "the sequential reference submits %s(...) in stage %s, this executor does not" % (m, stage))
+        # level interval, guards and list builders must agree too
+        la = [(str(l["lo"]), str(l["hi"])) for l in ps.level_loops]
+        lb = [(str(l["lo"]), str(l["hi"])) for l in rs.level_loops]
+        if sorted(la) != sorted(lb):
+            res.violation("C03.a.same-submissions", tbf.rel(facts.path_of(ps.fn)), ps.fn["qname"], "level-interval", ps.fn["l"][1],
+                          "level interval %s differs from the reference's %s" % (la, lb))
+        ga = sorted((str(g["expr"]), g["op"]) for g in ps.guards)
+        gb = sorted((str(g["expr"]), g["op"]) for g in rs.guards)
+        if ga != gb:
+            res.violation("C03.a.same-submissions", tbf.rel(facts.path_of(ps.fn)), ps.fn["qname"], "stage-guard", ps.fn["l"][1],
+                          "stage guard %s differs from the reference's %s" % (ga, gb))
+        ma = sorted(m["descr"] for m in ps.mapper_calls)
+        mb = sorted(m["descr"] for m in rs.mapper_calls)
+        if ma != mb:
+            res.violation("C03.a.same-submissions", tbf.rel(facts.path_of(ps.fn)), ps.fn["qname"], "mapper", ps.fn["l"][1],
+                          "group-mapper calls differ from the reference: %s vs %s" % ([taskdeps.short(x) for x in ma], [taskdeps.short(x) for x in mb]))
+    return n
+
+
+def join_rule(facts, ex, res, kind):
+    """(e) stage functions that create tasks are called only from execute(), inside the region that joins them"""
+    fm = ex.exec_model
+    stage_names = set(ex.stages)
+    n = 0
+    for c in walk(fm.body):
+        if c.get("k") in ("CallExpr", "CXXMemberCallExpr") and ex._self_call(c) in stage_names:
+            n += 1
+            ok = False
+            if kind == "omp":
+                ok = any(a.get("k") == "OMPParallelDirective" for a in tbf.ancestors(c))
+                how = "inside the `omp parallel` region of execute() (its closing barrier / the trailing taskwait joins every task)"
+            else:
+                # specx: a waitAllTasks() call follows, in the same compound statement, every stage call
+                how = "followed by runtime.waitAllTasks() on every path of execute()"
+                waits = [w for w in walk(fm.body) if w.get("k") in ("CallExpr", "CXXMemberCallExpr") and tbf.callee_name(w) in ("waitAllTasks", "starpu_task_wait_for_all")]
+                ok = any(w["l"][1] > c["l"][1] and not any(a.get("k") in ("IfStmt", "ForStmt", "WhileStmt") for a in tbf.ancestors(w)) for w in waits)
+                rets = [r for r in walk(fm.body) if r.get("k") == "ReturnStmt" and r["l"][1] > c["l"][1]]
+                if rets and waits and min(r["l"][1] for r in rets) < max(w["l"][1] for w in waits):
+                    ok = False
+            res.instance("C03.e.join", "%s::execute -> %s" % (ex.cls, ex._self_call(c)), facts.loc(c), how)
+            if not ok:
+                res.violation("C03.e.join", tbf.rel(facts.path_of(c)), ex.cls + "::execute", ex._self_call(c), c["l"][1],
+                              "stage call is not " + how)
+    # reachable only from execute
+    for m in facts.methods_of(ex.cls):
+        if m["name"] == "execute":
+            continue
+        b = tbf.body(m)
+        if b is None:
+            continue
+        for c in walk(b):
+            if c.get("k") in ("CallExpr", "CXXMemberCallExpr") and ex._self_call(c) in stage_names:
+                res.violation("C03.e.join", tbf.rel(facts.path_of(c)), m["qname"], ex._self_call(c), c["l"][1],
+                              "task-creating stage function called outside execute(): its tasks are not joined")
+    return n
+
+
+def kernels_sized(facts, ex, res, worker_count_call):
+    """(d) second half: the per-worker kernel vector is grown to the runtime's worker count in execute()
+    before any task is created"""
+    fm = ex.exec_model
+    first_stage = min([c["l"][1] for c in walk(fm.body) if c.get("k") in ("CallExpr", "CXXMemberCallExpr") and ex._self_call(c) in ex.stages] or [10 ** 9])
+    grow = [c for c in walk(fm.body) if c.get("k") in ("CallExpr", "CXXMemberCallExpr") and ex._self_call(c) == "increaseNumberOfKernels"]
+    ok = any(c["l"][1] < first_stage for c in grow)
+    res.instance("C03.d.kernels-sized", ex.cls + "::execute", facts.loc(ex.execute), "increaseNumberOfKernels() before the first stage: %s" % ok)
+    if not ok:
+        res.violation("C03.d.kernels-sized", tbf.rel(facts.path_of(ex.execute)), ex.cls + "::execute", "increaseNumberOfKernels", ex.execute["l"][1],
+                      "per-worker kernel vector is not grown to the worker count before tasks are created")
+        return
+    inc = [m for m in facts.methods_of(ex.cls) if m["name"] == "increaseNumberOfKernels"]
+    if len(inc) != 1:
+        raise AnalysisBroken(ex.cls + "::increaseNumberOfKernels not found")
+    txt = facts.ntext(tbf.body(inc[0]))
+    if worker_count_call == "param":
+        ok2 = True
+    else:
+        ok2 = worker_count_call in txt
+    if not ok2 or "emplace_back" not in txt and "push_back" not in txt and "resize" not in txt:
+        res.violation("C03.d.kernels-sized", tbf.rel(facts.path_of(inc[0])), inc[0]["qname"], "worker-count", inc[0]["l"][1],
+                      "increaseNumberOfKernels does not grow the vector up to %s" % worker_count_call)
+
+
+def per_worker_kernel(facts, ex, res, wid_calls):
+    """(d) first half: inside a task the kernel argument is K[worker-id()], the id call being evaluated
+    in the task body (not at creation, where it would name the creating thread)"""
+    for name, st in ex.stages.items():
+        for c in st.wrapper_calls:
+            if c["in_task"] is None:
+                continue
+            args = tbf.call_args(c["node"])
+            ok = False
+            for a, o in zip(args, c["args"]):
+                if o == "K" and any(x.get("k") == "CallExpr" and tbf.callee_name(x) in wid_calls for x in walk(a)):
+                    ok = True
+            res.instance("C03.d.per-worker-kernel", "%s %s" % (st.fn["qname"], c["method"]), facts.loc(c["node"]), facts.ntext(c["node"])[:110])
+            if not ok:
+                res.violation("C03.d.per-worker-kernel", tbf.rel(facts.path_of(c["node"])), st.fn["qname"], c["method"], c["node"]["l"][1],
+                              "wrapper call inside a task does not select the kernel by the executing worker's id evaluated in the task body (got: %s)" % [o for o in c["args"] if "kernel" in o.lower() or o == "K"])
 
 
 def run(res, tier):
     facts = tbf.scan("core")
     res.units.append("umbrella TU 'core' (%d headers, %d function patterns)" % (len(facts.headers), len(facts.functions)))
+    res.rule("C03.a same submissions: per stage the set of wrapper applications (method, origin of every argument), level interval, guard and mapper calls equal the sequential reference's")
+    res.rule("C03.b deps cover effects: every (group, memory block) a task's wrapper calls write has an inout/commute dependency, every read of a block some task writes has at least `in`")
     res.rule("C03.c capture lifetime: a deferred task touches only firstprivate copies, its own locals, `this` outside lambdas and reference parameters of the stage function")
+    res.rule("C03.d per-worker kernel: wrapper calls inside tasks use K[worker-id()] evaluated in the body; K grown to the worker count before submission")
+    res.rule("C03.e join: task-creating stage functions are called only from execute(), inside the joining region")
+    cmap = effects.container_map(facts)
+    weff = effects.wrapper_effects(facts, cmap)
     ntasks = 0
-    for cls in OMP_CLASSES:
-        ms = facts.methods_of(cls)
-        if not ms:
-            raise tbf.AnalysisBroken("class %s has no methods in the core umbrella" % cls)
-        for fn in ms:
+    nunits = 0
+    for cls, refcls in PAIRS:
+        ex = stages.ExecutorSummary(facts, cls)
+        ref = stages.ExecutorSummary(facts, refcls)
+        same_submissions(facts, ex, ref, res)
+        for name, st in ex.stages.items():
+            nunits += taskdeps.check_stage(st, weff, cmap, res)
+            for c in st.wrapper_calls:
+                if c["in_task"] is None:
+                    res.violation("C03.a.same-submissions", tbf.rel(facts.path_of(c["node"])), st.fn["qname"], c["method"] + ":untasked", c["node"]["l"][1],
+                                  "wrapper call executed by the creating thread outside any task: it is not ordered with the tasks touching the same blocks")
+        join_rule(facts, ex, res, "omp")
+        kernels_sized(facts, ex, res, "omp_get_max_threads")
+        for fn in facts.methods_of(cls):
             ntasks += omp.check_capture_lifetime(facts, fn, res)
-    # any other task directive in the library is analysed too (new executors are not silently skipped)
+        per_worker_kernel(facts, ex, res, ("omp_get_thread_num",))
     for fn in facts.functions:
-        if fn.get("cls") in OMP_CLASSES or fn.get("inst"):
+        if fn.get("cls") in [p[0] for p in PAIRS] or fn.get("inst"):
             continue
         ntasks += omp.check_capture_lifetime(facts, fn, res)
     res.floor("C03.c", ntasks, 14, "omp task directives")
+    res.floor("C03.b", nunits, 14, "task units with wrapper calls")
+
+    if tier == "thorough":
+        import c03_runtimes
+        c03_runtimes.run(res, weff_core=weff)
